@@ -12,6 +12,7 @@ import (
 	"math"
 	"os"
 	"strconv"
+	"time"
 )
 
 type vChoice struct {
@@ -109,7 +110,9 @@ func vSameF64(a, b float64) bool    { return a == b || (a != a && b != b) }
 func vFinite32(x float32) bool      { return !math.IsInf(float64(x), 0) && x == x }
 func vFinite64(x float64) bool      { return !math.IsInf(x, 0) && x == x }
 func vConcrete(v any) bool          { return true }
-func vYield()                       {}
+// vYield: under gosymex the pending background signals are served before the caller continues; natively the
+// background workers get 150 ms to do the same (the replayed path assumed they finished).
+func vYield() { time.Sleep(150 * time.Millisecond) }
 func vPreempt(n int)                {}
 func vThreads() int                 { return 1 }
 func vIteF32(c bool, a, b float32) float32 {
